@@ -368,18 +368,21 @@ func NewWALDecoder(rd io.Reader) *WALDecoder {
 func (dec *WALDecoder) Decode() (*TimedWALMessage, error) {
 	b := make([]byte, 4)
 
-	n, err := dec.rd.Read(b)
+	// io.ReadFull: a reader may return fewer bytes than asked for without an
+	// error (a plain file does at its end); a record cut short must not pass for
+	// a complete one whose missing bytes happen to be zero.
+	n, err := io.ReadFull(dec.rd, b)
 	if n == 0 && errors.Is(err, io.EOF) {
-		return nil, err
+		return nil, io.EOF
 	}
-	if n < len(b) || (err != nil && !errors.Is(err, io.EOF)) {
+	if err != nil {
 		// a torn checksum (1-3 bytes left by a crash) is corruption, not a clean end of the log
 		return nil, DataCorruptionError{fmt.Errorf("failed to read checksum: %v (read: %d, wanted: %d)", err, n, len(b))}
 	}
 	crc := binary.BigEndian.Uint32(b)
 
 	b = make([]byte, 4)
-	_, err = dec.rd.Read(b)
+	_, err = io.ReadFull(dec.rd, b)
 	if err != nil {
 		return nil, DataCorruptionError{fmt.Errorf("failed to read length: %v", err)}
 	}
@@ -393,7 +396,7 @@ func (dec *WALDecoder) Decode() (*TimedWALMessage, error) {
 	}
 
 	data := make([]byte, length)
-	n, err = dec.rd.Read(data)
+	n, err = io.ReadFull(dec.rd, data)
 	if err != nil {
 		return nil, DataCorruptionError{fmt.Errorf("failed to read data: %v (read: %d, wanted: %d)", err, n, length)}
 	}
